@@ -1,7 +1,9 @@
 """C15 - clusters are the connected components / SciPy clusters of the stated distances.
 
 (a) graph_clustering(adj, nodes, 'cc')            vs api_graph_cc (proved = path connectivity, C15_components / C15_cc_output)
-(b) graph_clustering(adj, nodes, <community>)     refinement of api_components (C15_refinement)
+                                                  incl. the two-collection search of a collection against itself (self pairs (i, i, 0))
+(b) graph_clustering(adj, nodes, <community>)     refinement of api_components (C15_refinement), incl. repertoires with more than
+                                                  100 clusters (many small components + components that the community methods split)
 (c) hierarchical_clustering(seqs, ...)            vs scipy linkage / fcluster applied to the MODEL's condensed distance vector
 (d) single linkage cut at t                       vs api_components of the max_edits = t neighbour graph from the real search
                                                   and vs the single-linkage model's cut (C15_single_linkage_cut / _neighbour_graph)
@@ -14,6 +16,7 @@ from gens import repertoire, all_strings, shrink_list
 from core import call_impl, jsonable
 
 ENGINES = ['nearest_neighbor', 'symdel', 'kdtree', 'hash_based']
+CROSS_ENGINES = ['nearest_neighbor_x', 'symdel_x']          # the engines that take seqs2
 COMMUNITY = ['fastgreedy', 'multilevel', 'leiden', 'label_propagation', 'walktrap', 'infomap']
 COMMUNITY_KW = {'leiden': [dict(), dict(objective_function='modularity')], 'walktrap': [dict(), dict(steps=2)],
                 'infomap': [dict(), dict(trials=2)]}
@@ -52,7 +55,11 @@ def search(engine, seqs, k):
     """neighbour triplets from the real search function; k = 0 keeps the distance-0 pairs of the k = 1 search
     (the search functions reject max_edits = 0)."""
     import pyrepseq.nn as nn
-    if engine == 'kdtree_top1':
+    if engine.endswith('_x'):
+        # the two-collection form of the search with the collection searched against itself (seqs2 = seqs): every sequence is
+        # listed as its own neighbour, (i, i, 0), next to the pairs of the one-collection form
+        res = getattr(nn, engine[:-2])(list(seqs), max_edits=max(1, k), seqs2=list(seqs), output_type='triplets')
+    elif engine == 'kdtree_top1':
         # max_returns=1: each sequence lists only its nearest neighbour, so the list is NOT symmetric (an edge may appear in one
         # orientation only) - still a neighbour list produced by the search functions
         res = nn.kdtree(list(seqs), max_edits=max(1, k), max_returns=1, output_type='triplets')
@@ -235,6 +242,59 @@ def community_small_graphs(ctx, nn, masks):
     return nbad
 
 
+def community_many_clusters(ctx, ngraphs, big=False):
+    """(a) + (b) on repertoires with MORE THAN 100 clusters: many small components (pairs, triples) next to components made of several
+    tight groups joined by single edges, which the community methods split - the neighbour list comes from the real search."""
+    rng = ctx.rng
+    graphs, jobs = [], []
+    for gi in range(ngraphs):
+        layout = ['headtail', 'blocks', 'headtail', 'nodes', 'headtail'][gi % 5]
+        seqs = many_cluster_repertoire(rng, layout, big and gi % 2 == 1)
+        eng = ['nearest_neighbor', 'symdel', 'kdtree', 'nearest_neighbor_x'][gi % 4]
+        n = len(seqs)
+        adj = search(eng, seqs, 1)
+        labels = ['node_%d' % i for i in range(n)]
+        desc = '%s(max_edits=1) on %d sequences (many clusters, %s order)' % (eng, n, layout)
+        ctx.count('cc:many-clusters')
+        ctx.case(nontrivial_key=('cc-many', tuple(seqs)))
+        check_cc(ctx, n, adj, ['list', 'ndarray'][gi % 2], labels, desc, seqs, eng, 1)
+        graphs.append((n, adj, labels, seqs, desc))
+        for m in COMMUNITY:
+            kw = rng.choice(COMMUNITY_KW.get(m, [dict()]))
+            seed = rng.getrandbits(30)
+            ctx.count('community:' + m)
+            ctx.case(nontrivial_key=('community-many', m, tuple(seqs)))
+            r = community_labelling(n, adj, labels, m, kw, seed)
+            if r[0] != 'ok':
+                report_community(ctx, n, adj, labels, m, kw, seed, m + ' on ' + desc, seqs, r[1])
+                continue
+            ctx.count('community:more-than-100-communities' if len(set(r[1])) > 100 else 'community:at-most-100-communities')
+            jobs.append((gi, m, kw, seed, r[1]))
+        if len(ctx.violations) > 8:
+            return
+    comps = ctx.oracle.run_parallel([('api_components', [n, edges_of(adj)]) for n, adj, _, _, _ in graphs], nproc=4)
+    for (n, adj, _, _, _), Q in zip(graphs, comps):
+        ctx.count('community:many-clusters-components>100' if len(set(Q)) > 100 else 'community:many-clusters-components<=100')
+    outs = ctx.oracle.run_parallel([('api_refines', [P, comps[gi]]) for gi, _, _, _, P in jobs])
+    nbad = 0
+    for (gi, m, kw, seed, P), ok in zip(jobs, outs):
+        n, adj, labels, seqs, desc = graphs[gi]
+        Q = comps[gi]
+        if len(set(zip(P, Q))) > len(set(Q)):
+            ctx.count('community:many-clusters-a-component-is-split')
+        if ok:
+            continue
+        nbad += 1
+        if nbad > 3:
+            continue
+        first = {}
+        u, v = next((first[c], w) for w, c in enumerate(P) if Q[first.setdefault(c, w)] != Q[w])
+        report_community(ctx, n, adj, labels, m, kw, seed, m + ' on ' + desc, seqs,
+                         'nodes %s (%s) and %s (%s) are in one cluster but no path of neighbour edges connects them' %
+                         (labels[u], seqs[u], labels[v], seqs[v]))
+    return nbad
+
+
 # ------------------------------------------------------------------ (c) hierarchical clustering vs SciPy on the model's vector
 def make_input(kind, cols, rng_perm):
     """cols: dict column -> list of strings (plain sequences under key None)."""
@@ -403,6 +463,71 @@ def far_apart(rng, n):
     return [c * rng.randint(6, 9) for c in rng.sample(gens.AA, n)]
 
 
+def variants_at(rng, base, pos, size):
+    """`size` sequences that differ from each other at position pos only (mutually at distance 1), `base` first."""
+    letters = [base[pos]] + rng.sample([x for x in gens.AA if x != base[pos]], size - 1)
+    return [base[:pos] + x + base[pos + 1:] for x in letters]
+
+
+def group_chain(rng, ngroups, size):
+    """one connected family made of ngroups tight groups (each: variants at one position); a group hangs on an earlier one by a single
+    substitution at another position, so consecutive groups are joined by one neighbour edge and community detection separates them."""
+    base = ''.join(rng.choice(gens.AA) for _ in range(rng.randint(12, 15)))
+    p = rng.randrange(len(base))
+    out = [variants_at(rng, base, p, size())]
+    for _ in range(ngroups - 1):
+        src = rng.choice(out[-1] if rng.random() < 0.7 else rng.choice(out))
+        q = rng.choice([i for i in range(len(src)) if i != p])
+        b = src[:q] + rng.choice([x for x in gens.AA if x != src[q]]) + src[q + 1:]
+        p = rng.choice([i for i in range(len(b)) if i not in (p, q)])
+        out.append(variants_at(rng, b, p, size()))
+    return out
+
+
+def many_cluster_repertoire(rng, layout, big=False):
+    """a repertoire with somewhat more than 100 clusters: P small families (pairs, a few triples, unrelated random roots), K larger
+    families made of several tight groups (group_chain), a few sequences without neighbour. Order of the input:
+    'headtail' - the first group of every larger family, then the small families, then the remaining groups (shuffled);
+    'blocks'   - the first group of every larger family, then small families and remaining groups shuffled as blocks;
+    'nodes'    - every sequence at a random place.
+    The number of small families straddles 100 so that cluster / community numbers on both sides of 100 (and 200 for big) occur."""
+    def size():
+        return rng.randint(4, 5)
+    if layout == 'headtail':
+        K = rng.choice([1, 1, 2, 3])
+        P = rng.randint(186, 200) if big else rng.randint(86, 100)
+        late = rng.randint(14, 22) + 6 * (K - 1)
+        per = [1] * K
+        for _ in range(late - K):
+            per[rng.randrange(K)] += 1
+        ngroups = [1 + x for x in per]
+    else:
+        K = rng.randint(2, 6)
+        P = rng.randint(95, 230 if big else 130)
+        ngroups = [rng.randint(2, 8) for _ in range(K)]
+    bigs = [group_chain(rng, g, size) for g in ngroups]
+    smalls = []
+    for _ in range(P):
+        root = ''.join(rng.choice(gens.AA) for _ in range(rng.randint(10, 15)))
+        smalls.append(variants_at(rng, root, rng.randrange(len(root)), 2 if rng.random() < 0.8 else 3))
+    lone = [[''.join(rng.choice(gens.AA) for _ in range(rng.randint(10, 15)))] for _ in range(rng.randint(1, 3))]
+    head = [b[0] for b in bigs]
+    tail = [g for b in bigs for g in b[1:]]
+    if layout == 'headtail':
+        rng.shuffle(tail)
+        mid = smalls + lone
+        rng.shuffle(mid)
+        blocks = head + mid + tail
+    else:
+        rest = smalls + tail + lone
+        rng.shuffle(rest)
+        blocks = head + rest
+    seqs = [s for b in blocks for s in b]
+    if layout == 'nodes':
+        rng.shuffle(seqs)
+    return seqs
+
+
 def tcr_columns(rng, n, which):
     def chain():
         xs = []
@@ -433,8 +558,9 @@ def run(ctx):
     q = ctx.quick
     ctx.rule = ("(a) graph_clustering 'cc' on neighbour lists returned by nearest_neighbor / symdel / kdtree / hash_based (triplets; list of tuples and "
                 "ndarray) for clonal repertoires with duplicates at distance 0, isolated nodes, and repertoires with no neighbours (the empty list), plus "
-                "every graph on 4 nodes; string node labels (unique, and the sequences themselves); (b) the six community variants: refinement of the "
-                "connected components; (c) hierarchical_clustering vs scipy linkage/fcluster of the model's condensed distances for list / tuple / ndarray / "
+                "every graph on 4 nodes without and with the self pairs (i, i, 0), and the lists of nearest_neighbor / symdel(seqs, seqs2=seqs) "
+                "(every sequence its own neighbour); string node labels (unique, and the sequences themselves); (b) the six community variants: "
+                "refinement of the connected components, also on repertoires with more than 100 clusters / communities; (c) hierarchical_clustering vs scipy linkage/fcluster of the model's condensed distances for list / tuple / ndarray / "
                 "Series(non-default index) / TCR tables with permuted or string index (CDR3A, CDR3B, both) / legacy pair tuple, methods single, complete, "
                 "average, weighted, optimal_ordering on/off, criteria distance / maxclust / inconsistent, explicit metrics; (d) single linkage cut at "
                 "t = 0..4 vs components of the max_edits = t graph from the real search and vs the single-linkage model. "
@@ -470,6 +596,22 @@ def run(ctx):
         ctx.count('cc:all-graphs-4')
         check_cc(ctx, 4, adj, 'list' if mask % 2 else 'ndarray', labels, 'graph on 4 nodes #%d' % mask)
         if mask % 9 == 0:
+            e = edges_of(adj)
+            ctx.add_vm('api_graph_cc', [4, e], ctx.oracle.run([('api_graph_cc', [4, e])])[0])
+    # the same graphs as the two-collection search of a collection against itself lists them: every node is its own neighbour at
+    # distance 0 (incl. mask 0: nothing but the self pairs). A node whose only neighbour is itself is a cluster with ONE member.
+    nself_bad = 0
+    for mask in range(0, 1 << len(pairs4)):
+        adj = [(i, i, 0) for i in range(4)]
+        for b, (i, j) in enumerate(pairs4):
+            if mask >> b & 1:
+                adj += [(i, j, 1), (j, i, 1)]
+        adj.sort()
+        ctx.case(nontrivial_key=('g4-self', mask))
+        ctx.count('cc:all-graphs-4-with-self-pairs')
+        if nself_bad < 2 and not check_cc(ctx, 4, adj, 'ndarray' if mask % 2 else 'list', ['w', 'x', 'y', 'z'], 'graph on 4 nodes #%d with self pairs' % mask):
+            nself_bad += 1
+        if mask in (0, 5, 33):
             e = edges_of(adj)
             ctx.add_vm('api_graph_cc', [4, e], ctx.oracle.run([('api_graph_cc', [4, e])])[0])
     ctx.exhaustive = True
@@ -612,6 +754,42 @@ def run(ctx):
                 ctx.add_vm('api_c15_sl_cut_lev', [t, list(seqs)], comp)
         if len(ctx.violations) > 8:
             return
+    # ---- (a) + (b) on the neighbour lists of the two-collection search, the collection searched against itself -----------------
+    # (drawn after the older parts so that their random streams are what they were)
+    ncx = 16 if q else 250
+    for it in range(ncx):
+        eng = CROSS_ENGINES[it % 2]
+        k = rng.choice([0, 1, 1, 2, 3])                 # 0: only the pairs at distance 0, self pairs included
+        seqs = small_repertoire(rng, rng.randint(1, 30 if q else 100))
+        if it % 3 == 2:
+            seqs = seqs + far_apart(rng, rng.randint(1, 3))      # sequences whose only neighbour is themselves, for sure
+        n = len(seqs)
+        adj = search(eng, seqs, k)
+        comp = ctx.oracle.run([('api_components', [n, edges_of(adj)])])[0]
+        sizes = sorted(len(p) for p in partition_of(comp))
+        nt = sizes[-1] >= 3 and sizes[0] == 1
+        nself = sum(1 for a, b, _ in adj if a == b)
+        ctx.count('cc:' + eng)
+        ctx.count('cc:self-pairs-for-every-node' if nself == n else 'cc:self-pairs-missing')
+        ctx.count('cc:has-node-with-only-a-self-pair' if sizes[0] == 1 else 'cc:no-node-with-only-a-self-pair')
+        ctx.case(sample=dict(part='cc', engine=eng, k=k, seqs=seqs[:10], edges=len(adj), components=partition_of(comp)[:6]) if nt and it % 8 == 0 else None,
+                 nontrivial_key=('cc-x', tuple(seqs), k) if nt else None)
+        labels = ['node_%d' % i for i in range(n)] if it % 4 else list(seqs)
+        check_cc(ctx, n, adj, ['list', 'ndarray'][it // 2 % 2], labels, '%s(max_edits=%d, seqs2=seqs)%s on %d sequences' %
+                 (eng[:-2], max(1, k), ' distance-0 pairs' if k == 0 else '', n), seqs, eng, k)
+        if it % 4 == 0:
+            ulabels = ['node_%d' % i for i in range(n)]
+            for m in COMMUNITY:
+                kw = rng.choice(COMMUNITY_KW.get(m, [dict()]))
+                ctx.count('community:' + m)
+                ctx.case(nontrivial_key=('community-x', m, tuple(seqs), k) if nt else None)
+                check_community(ctx, n, adj, ulabels, m, kw, '%s on %s(max_edits=%d, seqs2=seqs), %d sequences' % (m, eng[:-2], max(1, k), n), seqs)
+        if len(ctx.violations) > 8:
+            return
+    # ---- (a) + (b) on repertoires with more than 100 clusters -------------------------------------------------------------------
+    community_many_clusters(ctx, 5 if q else 40, big=not q)
+    if len(ctx.violations) > 8:
+        return
     # a tiny matrix case for the dendrogram entry itself
     M = [[0, 1, 5, 6], [1, 0, 2, 7], [5, 2, 0, 9], [6, 7, 9, 0]]
     o = ctx.oracle.run([('api_c15_single_linkage', [4, M]), ('api_c15_threshold_graph', [4, M, 2]), ('api_c15_sl_cut', [4, M, 2])])
